@@ -22,7 +22,7 @@ LEVEL_TEXT = ("Clouds of 10^4-10^6 particles are stepped 1-50 times by the real 
 LEVEL_NOTE = "Restated as bounded statistics: moments and independence only (no normality test). A 6-sigma band with 1e5 particles is +-2.7 % on the variance: false alarms at the 1e-8 level per test, factor-2/unit errors far outside."
 RULE = ("case = (D, Dz, dt, dx, dy, steps, cloud size, seed). Non-trivial: D > 0 or Dz > 0 with at least 2 steps (independence across steps observable); distinct by parameters.")
 MANDATORY = ["horizontal_variance_tests", "vertical_variance_tests", "mean_tests", "cross_covariance_tests", "lag1_tests", "neighbour_tests", "growth_tests",
-             "zero_diffusion_deterministic", "anisotropic_grid", "rng_seeded_by_harness", "e2e_variance_tests", "horizontal_vertical_covariance_tests", "varying_metric_variance_tests"]
+             "zero_diffusion_deterministic", "anisotropic_grid", "rng_seeded_by_harness", "e2e_variance_tests", "horizontal_vertical_covariance_tests", "varying_metric_variance_tests", "vertical_advection_with_diffusion_tests"]
 ASSUMPTIONS = ["still water, uniform metric, no boundaries reached (grid and water column far larger than the cloud)"]
 TIMEOUT = {"quick": 900, "thorough": 3400}
 KSIG = 6.0
@@ -65,8 +65,8 @@ class VGrid(UGrid):
 
 
 class NoForce:
-    def __init__(self):
-        self.variables = {}
+    def __init__(self, w=None, n=0):
+        self.variables = {} if w is None else dict(w=np.full(n, float(w)))
 
     def velocity(self, X, Y, Z, fractional_step=0, method="bilinear"):
         return np.zeros(len(X)), np.zeros(len(X))
@@ -94,7 +94,7 @@ def gen_cases(tier: str, seed: int) -> list[dict[str, Any]]:
         cases.append(dict(idx=i, rngseed=int(seed * 100003 + i), D=D, Dz=Dz, dt=int(rng.choice([10, 60, 600, 3600])), dx=dx,
                           dy=dx * float(rng.choice([1.0, 1.0, 0.5, 2.5])), steps=int(rng.choice([1, 2, 5, 20, 50])),
                           n=int(rng.choice([10**4, 10**5, 3 * 10**5])) if tier == "quick" else int(rng.choice([10**4, 10**5, 10**6])),
-                          advection=str(rng.choice(["", "EF"])), varying_metric=bool(i % 3 == 1)))
+                          advection=str(rng.choice(["", "EF"])), varying_metric=bool(i % 3 == 1), w=float(rng.choice([-1.0e-3, 2.0e-3])) if i % 4 == 0 else None))
         if cases[-1]["varying_metric"]:
             # random step comparable to the cell size and several steps: the cloud wanders through cells of different spacing
             c = cases[-1]
@@ -162,8 +162,9 @@ def run_case(case: dict[str, Any], wd: Path) -> dict[str, Any]:
         timer = TimeKeeper(start=C.T0, stop=str(tadd(C.T0, dt * (steps + 2))), dt=dt)
         state = State()
         grid = VGrid(dx, dy) if case.get("varying_metric") else UGrid(dx, dy)
-        modules: dict[str, Any] = dict(time=timer, state=state, grid=grid, forcing=NoForce())
-        tr = Tracker(advection=case["advection"], diffusion=D, vertdiff=Dz, modules=modules)
+        wv = case.get("w")
+        modules: dict[str, Any] = dict(time=timer, state=state, grid=grid, forcing=NoForce(wv, n))
+        tr = Tracker(advection=case["advection"], diffusion=D, vertdiff=Dz, vertical_advection=wv is not None, modules=modules)
         if D == 0 and Dz == 0:
             tr.rng = ForbiddenRNG()
         else:
@@ -238,8 +239,13 @@ def run_case(case: dict[str, Any], wd: Path) -> dict[str, Any]:
                     sit["anisotropic_grid"] = sit.get("anisotropic_grid", 0) + 1
             elif np.any(dX != 0) or np.any(dY != 0):
                 V.append(C.viol(f"step {s}: horizontal displacement although D = 0 and the water is still", **desc))
+            wdt = (case.get("w") or 0.0) * dt
+            if case.get("w") is not None:
+                bump("vertical_advection_with_diffusion_tests" if Dz > 0 else "vertical_advection_only_tests")
+                if Dz == 0 and np.max(np.abs(dZ - wdt)) > 1e-9:
+                    V.append(C.viol(f"step {s}: vertical advection alone moved particles by {float(dZ.mean()):.6g} m, w*dt = {wdt:.6g}", **desc))
             if Dz > 0:
-                m, v = float(dZ.mean()), float(dZ.var(ddof=1))
+                m, v = float(dZ.mean()) - wdt, float(dZ.var(ddof=1))
                 bump("mean_tests")
                 if abs(m) > KSIG * np.sqrt(sz2 / n):
                     V.append(C.viol(f"step {s}: mean vertical displacement {m:.4g} m, outside +-{KSIG * np.sqrt(sz2 / n):.3g}", **desc))
@@ -252,7 +258,7 @@ def run_case(case: dict[str, Any], wd: Path) -> dict[str, Any]:
                         bump("horizontal_vertical_covariance_tests")
                         if abs(r) > KSIG / np.sqrt(n):
                             V.append(C.viol(f"step {s}: {hname} and vertical displacements correlated (r = {r:.4f})", **desc))
-            elif np.any(dZ != 0):
+            elif np.any(dZ != 0) and case.get("w") is None:
                 V.append(C.viol(f"step {s}: depth changed although Dz = 0 and vertical advection is off", **desc))
             prev = (dX, dY)
             if len(V) > 3:
